@@ -350,6 +350,20 @@ def null_discipline(f, key, start_node, is_local, alloc_call=None):
                     return None
         if k == 'bin' and n['op'] == '=' and n is not start_node and is_key(f.kid(n, 0)):
             return None
+        # `result = slot;`: a local now holds the same pointer, a NULL test of the local
+        # decides the slot
+        cp_dst = cp_src = None
+        if k == 'decl' and n.get('c'):
+            cp_dst, cp_src = n['name'], f.kid(n, 0)
+        elif k == 'bin' and n['op'] == '=':
+            l_ = cu.strip_casts(f, f.kid(n, 0))
+            if l_ is not None and l_['k'] == 'ref' and l_.get('dk') == 'local':
+                cp_dst, cp_src = l_['name'], f.kid(n, 1)
+        if cp_dst is not None:
+            if cp_src is not None and is_key(cp_src):
+                facts = frozenset(facts) | {('alias', cp_dst)}
+            elif ('alias', cp_dst) in facts:
+                facts = frozenset(facts) - {('alias', cp_dst)}
         if k == 'ret':
             e = f.kid(n, 0)
             if e is not None and is_key(e):
@@ -417,6 +431,9 @@ def null_discipline(f, key, start_node, is_local, alloc_call=None):
             return None
         pol = paths.branch_polarity(f, term, idx)
         if pol is not None and cond is not None:
+            imp_ = ct.implied(cond, pol)
+            if imp_ is not None and imp_[2] == 0 and ('alias', imp_[1]) in facts:
+                return None         # tested through the local that holds the same pointer
             c, _ = paths.normalise_cond(f, cond, pol)
             if c is not None:
                 if is_key(c):
@@ -1541,6 +1558,91 @@ def r16_9(ctx, cg):
     ctx.count('out_parameter_releases', n_sites)
 
 
+def r16_10(ctx, cg):
+    from ..effects import _via_pointer
+    """a field whose pointee was released does not keep the stale pointer: after
+    `yr_free(obj->field)` (or a callee that frees it) every path to a return assigns the
+    field again, or releases / re-assigns the object that holds it.  A function that frees
+    the old value of a field first and then fails to produce the new one must not leave the
+    field pointing at the freed block - the object's destructor frees it a second time."""
+    prog = ctx.prog
+    from .C14 import canon
+    esc = param_escape_summary(prog, cg)
+    n_sites = 0
+    for f in prog.fns():
+        if not (f.file.startswith('libyara/') or ctx.fixture):
+            continue
+        sites = []
+        for c in f.calls():
+            callee = c.get('callee')
+            for j, a in enumerate(f.call_args(c)):
+                m = cu.strip_casts(f, a)
+                if m is None or m['k'] != 'member' or not _via_pointer(f, m):
+                    continue
+                if '*' not in (m.get('t') or ''):
+                    continue
+                frees = callee in RELEASERS and RELEASERS[callee] == j
+                if not frees and callee:
+                    for t in cg.targets(f, c):
+                        g = prog.fn(t, f.tu)
+                        if g is not None and esc[(g.tu.name, g.name)].get(j) == 'free':
+                            frees = True
+                if frees:
+                    sites.append((c, m))
+        for k, (c, m) in enumerate(sorted(sites, key=lambda x: (x[0].get('l', 0), x[0]['i']))):
+            M = canon(f, m)
+            root = m
+            chain = []
+            while root is not None and root['k'] in ('member', 'cast', 'sub'):
+                root = f.kid(root, 0)
+                if root is not None and root['k'] in ('member', 'ref'):
+                    chain.append(canon(f, root))
+            holders = set(chain)                 # the objects on the access path of the field
+            nb = f.block_of(c)
+            if nb is None:
+                continue
+            # only functions that replace the value: the field is assigned somewhere in the
+            # function (a two-step teardown that closes a handle and leaves the record to its
+            # owner is not this rule's business)
+            if not any(x['k'] == 'bin' and x['op'] == '=' and canon(f, f.kid(x, 0)) == M for x in f.all_nodes()):
+                continue
+            n_sites += 1
+            bad = []
+
+            def step(n, facts, M=M, holders=holders, c=c):
+                if n['k'] == 'bin' and n['op'] == '=':
+                    l = canon(f, f.kid(n, 0))
+                    if l == M or l in holders:
+                        return None
+                if n['k'] == 'call' and n is not c:
+                    callee = n.get('callee')
+                    for j, a in enumerate(f.call_args(n)):
+                        t_ = canon(f, a)
+                        if t_ in holders:
+                            if callee in RELEASERS and RELEASERS[callee] == j:
+                                return None
+                            for t in cg.targets(f, n):
+                                g = prog.fn(t, f.tu)
+                                if g is not None and esc[(g.tu.name, g.name)].get(j) in ('free', 'store'):
+                                    return None
+                if n['k'] == 'ret':
+                    bad.append(n)
+                    return None
+                return facts
+            try:
+                paths.explore(f, set(), step, None, start_block=nb[0], start_index=nb[1] + 1, max_states=1024)
+            except paths.Budget:
+                ctx.note('R16.10 %s: budget exceeded (not decided)' % f.name)
+                continue
+            ctx.ob('R16.10', '%s:%s#%d:field-not-left-dangling' % (f.name, M, k), not bad,
+                   f.loc(bad[0]) if bad else f.loc(c),
+                   '%s is assigned again (or its holder released) on every path after its pointee was freed' % M
+                   if not bad else
+                   '%s frees what %s points to (at %s) and returns here with the field still holding the '
+                   'freed pointer: the holder\'s destructor frees it again' % (f.name, M, f.loc(c)))
+    ctx.count('field_releases', n_sites)
+
+
 def _fx(which, **kw):
     def runner(ctx):
         cg, rc, allocs, nullable = _all(ctx)
@@ -1560,6 +1662,8 @@ def _fx(which, **kw):
             r16_8(ctx)
         elif which == 9:
             r16_9(ctx, cg)
+        elif which == 10:
+            r16_10(ctx, cg)
         else:
             r16_5(ctx)
     d = {'src': 'C16/errs.c', 'run': runner}
@@ -1578,6 +1682,7 @@ FIXTURES = {
     'R16.6': _fx(6, expect='wrap_bad:thing_acquire(t):released-on-failure',
                  expect_ok='wrap_good:thing_acquire(t):released-on-failure'),
     'R16.9': _fx(9, expect='out_dangling:yr_free(*out)#0', expect_ok='out_reset:yr_free(*out)#0'),
+    'R16.10': _fx(10, expect='replace_text_bad:h->text#0', expect_ok='replace_text_good:h->text#0'),
 }
 
 
@@ -1596,6 +1701,8 @@ def run(ctx):
     ctx.floor('R16.8', 3)
     r16_9(ctx, cg)
     ctx.floor('R16.9', 10)
+    r16_10(ctx, cg)
+    ctx.floor('R16.10', 15)
     ctx.floor('R16.1', 1200)
     ctx.floor('R16.2', 180)
     ctx.floor('R16.3', 4)
